@@ -2,7 +2,7 @@
     Only statements, closed by [exact], and their assumptions.  [C] ranges over every crypto
     instance satisfying [Correct] (the stand-in [Stub] is one: Proofs/StubCorrect.v). *)
 From Acra Require Import Lib.Bytes Lib.Outcome Crypto.Interface Gen.Consts Model.Envelope
-  Proofs.Envelope Proofs.EnvelopeHandlers.
+  Proofs.Envelope Proofs.EnvelopeHandlers Proofs.Scanner.
 
 (** library level: CreateAcrastruct / DecryptAcrastruct, any context, any plaintext 1 .. 2^32-1024 *)
 Theorem C01_acrastruct_roundtrip :
@@ -72,7 +72,10 @@ Theorem C01_entrypoints_asymmetric :
   exists v, encrypt_with_handler C ENVELOPE_ID_ACRASTRUCT ks tape x = Ok v /\
             decrypt_with_handler C ENVELOPE_ID_ACRASTRUCT ks' v = Ok x /\
             registry_process C ks' v = Ok x /\
-            (forall id' ks2 tape2, encrypt_with_handler C id' ks2 tape2 v = Ok v).
+            (forall id' ks2 tape2, encrypt_with_handler C id' ks2 tape2 v = Ok v) /\
+            exists inner, v = sc_layout inner ENVELOPE_ID_ACRASTRUCT /\ inner <> [] /\
+              (N.of_nat (length inner) < 4294967296)%N /\ handler_match ENVELOPE_ID_ACRASTRUCT inner = true /\
+              handler_decrypt C ENVELOPE_ID_ACRASTRUCT ks' inner = Ok x /\ length x < length inner.
 Proof. exact handler_roundtrip_as. Qed.
 Print Assumptions C01_entrypoints_asymmetric.
 
@@ -88,9 +91,69 @@ Theorem C01_entrypoints_symmetric :
   exists v, encrypt_with_handler C ENVELOPE_ID_ACRABLOCK ks tape x = Ok v /\
             decrypt_with_handler C ENVELOPE_ID_ACRABLOCK ks' v = Ok x /\
             registry_process C ks' v = Ok x /\
-            (forall id' ks2 tape2, encrypt_with_handler C id' ks2 tape2 v = Ok v).
+            (forall id' ks2 tape2, encrypt_with_handler C id' ks2 tape2 v = Ok v) /\
+            exists inner, v = sc_layout inner ENVELOPE_ID_ACRABLOCK /\ inner <> [] /\
+              (N.of_nat (length inner) < 4294967296)%N /\ handler_match ENVELOPE_ID_ACRABLOCK inner = true /\
+              handler_decrypt C ENVELOPE_ID_ACRABLOCK ks' inner = Ok x /\ length x < length inner.
 Proof. exact handler_roundtrip_ab. Qed.
 Print Assumptions C01_entrypoints_symmetric.
+
+
+(** transparent column processing (EnvelopeDetector.OnColumn with [DecryptHandler(RegistryHandler)]):
+    a protected value embedded in a column after ANY prefix in which no tag occurrence starts, and followed
+    by ANY bytes, is replaced in place by the original plaintext; the bytes after it are processed exactly
+    as a column of their own ([lift_out] prepends [p ++ x] to that result).  Unbounded in all lengths. *)
+Theorem C01_column_reveal_asymmetric :
+  forall (C : crypto), Correct C ->
+  forall (ks ks' : keyset) (tape : list bytes) (x sb : bytes) (before after : list bytes) (p s : bytes),
+  looks_protected ENVELOPE_ID_ACRASTRUCT x = false ->
+  x <> [] -> (N.of_nat (length x) < MAXMSG)%N -> good_as_tape tape -> length sb = SEED_LEN ->
+  ks_pub ks = Some (pub_of C sb) ->
+  ks_privs ks' = before ++ priv_of C sb :: after ->
+  (forall v, Forall (fun k => exists e, as_decrypt C v k [] = Err e) before) ->
+  exists v, encrypt_with_handler C ENVELOPE_ID_ACRASTRUCT ks tape x = Ok v /\
+    (quiet p (v ++ s) ->
+     on_column (column_cbs C ks') (p ++ v ++ s)
+     = lift_out (p ++ x) true (scan (S (length s)) (column_cbs C ks') s [] false)).
+Proof. exact column_roundtrip_as. Qed.
+Print Assumptions C01_column_reveal_asymmetric.
+
+Theorem C01_column_reveal_symmetric :
+  forall (C : crypto), Correct C ->
+  forall (ks ks' : keyset) (tape : list bytes) (x key : bytes) (rest before after : list bytes) (p s : bytes),
+  looks_protected ENVELOPE_ID_ACRABLOCK x = false ->
+  x <> [] -> (N.of_nat (length x) < MAXMSG)%N -> good_ab_tape tape -> key <> [] ->
+  ks_syms ks = key :: rest ->
+  ks_syms ks' = before ++ key :: after ->
+  (forall ek, Forall (fun k => bytes_eqb (ab_key_id k []) (ab_key_id key []) = false
+                               \/ cell_decrypt C k [] ek = None) before) ->
+  exists v, encrypt_with_handler C ENVELOPE_ID_ACRABLOCK ks tape x = Ok v /\
+    (quiet p (v ++ s) ->
+     on_column (column_cbs C ks') (p ++ v ++ s)
+     = lift_out (p ++ x) true (scan (S (length s)) (column_cbs C ks') s [] false)).
+Proof. exact column_roundtrip_ab. Qed.
+Print Assumptions C01_column_reveal_symmetric.
+
+(** the [quiet] premise is satisfiable by arbitrary binary data that does not contain the tag symbol *)
+Theorem C01_quiet_if_no_tag_symbol :
+  forall (p t : bytes), Forall (fun b => b <> SC_TAG_SYMBOL) p -> quiet p t.
+Proof. exact quiet_if_no_tag_symbol. Qed.
+Print Assumptions C01_quiet_if_no_tag_symbol.
+
+(** resynchronisation: the scanner's result does not depend on the fuel once it exceeds the input length
+    (every iteration consumes at least one byte), so the fuel-exhausted error is unreachable *)
+Theorem C01_scanner_fuel_independent :
+  forall (cbs : list (bytes -> res bytes)) (f1 f2 : nat) (rest out : bytes) (ch : bool),
+  length rest < f1 -> length rest < f2 -> scan f1 cbs rest out ch = scan f2 cbs rest out ch.
+Proof. exact scan_fuel. Qed.
+Print Assumptions C01_scanner_fuel_independent.
+
+(** a column in which no candidate envelope can be opened comes out byte-identical *)
+Theorem C01_column_passthrough :
+  forall (cbs : list (bytes -> res bytes)) (inb : bytes),
+  (forall c, run_callbacks cbs c = Ok None) -> on_column cbs inb = Ok (inb, false).
+Proof. exact on_column_passthrough. Qed.
+Print Assumptions C01_column_passthrough.
 
 (** input that already is a protected value is passed through unchanged *)
 Theorem C01_passthrough :
